@@ -1,4 +1,6 @@
-(* C14 driver.  stdin: "case <id> <prot> <warn> <err> <dbg> <limit> <nest> <step>", ops, "end".
+(* C14 driver.  stdin: "case <id> <prot> <warn> <err> <dbg> <limit> <nest> <step> [<x>]", ops, "end".
+   (x bit 1: the Output stream is not attached, println markers are not observable: printed as out=~;
+    x bit 0: a Verbose stream is attached, no effect on the observation)
    ops:  S <stmt>*   host ExecuteThread of a fresh script; stmt:
                      k<n> n plain instructions | p<m> println m | w<ms> wait | f script error
                      (warning) | a script abort | c( <stmt>* ) thread call | l<kind> endless
@@ -50,8 +52,9 @@ let oc_str = function
 
 let b2i b = if b then 1 else 0
 
+let out_hidden = ref false
 let obs_str (o : obs) : string =
-  let d = if o.prints = [] then "-" else String.concat "," (List.map (fun m -> string_of_int (int_of_n m)) o.prints) in
+  let d = if !out_hidden then "~" else if o.prints = [] then "-" else String.concat "," (List.map (fun m -> string_of_int (int_of_n m)) o.prints) in
   Printf.sprintf "%s dt=%d curnull=%d depth0=%d out=%s waiting=%d w=%d e=%d d=%d n=%d"
     (oc_str o.oc) (int_of_n o.dt) (b2i o.curnull) (b2i o.depth0) d (b2i o.waiting)
     (int_of_n o.lw) (int_of_n o.le) (int_of_n o.ld) (int_of_n o.ni)
@@ -62,8 +65,9 @@ let () =
     | [] -> ()
     | l :: rest ->
       (match words l with
-       | "case" :: id :: pr :: wa :: er :: db :: li :: ne :: st :: _ ->
+       | "case" :: id :: pr :: wa :: er :: db :: li :: ne :: st :: xs ->
          let i = int_of_string in
+         out_hidden := (match xs with x :: _ -> (i x) land 2 <> 0 | [] -> false);
          let c = { prot = i pr <> 0; warn = i wa <> 0; err = i er <> 0; dbg = i db <> 0;
                    limit = n_of_int (i li); nest = n_of_int (i ne); kstep = n_of_int (i st) } in
          let dl = i ne + 3 in
